@@ -1453,7 +1453,7 @@ impl<'a> CompilerState<'a> {
                                                             Rule::ptr_low => {
                                                                 let val = self.parse_calc(x.into_inner().next().unwrap().into_inner())?;
                                                                 if val == 255 {
-                                                                    VariableValue::LowPtr((id_name, sign * offset))
+                                                                    VariableValue::LowPtr((id_name, offset.checked_mul(sign).ok_or_else(|| self.syntax_error("Pointer offset out of range", start))?))
                                                                 } else {
                                                                     return Err(self.syntax_error(&format!("Incorrect suffix to reference {}", id_name), start))
                                                                 }
@@ -1461,14 +1461,14 @@ impl<'a> CompilerState<'a> {
                                                             Rule::ptr_hi => {
                                                                 let val = self.parse_calc(x.into_inner().next().unwrap().into_inner())?;
                                                                 if val == 8 {
-                                                                    VariableValue::HiPtr((id_name, sign * offset))
+                                                                    VariableValue::HiPtr((id_name, offset.checked_mul(sign).ok_or_else(|| self.syntax_error("Pointer offset out of range", start))?))
                                                                 } else {
                                                                     return Err(self.syntax_error(&format!("Incorrect suffix to reference {}", id_name), start))
                                                                 }
                                                             },
                                                             _ => return Err(self.syntax_error(&format!("Incorrect suffix to reference {}", id_name), start))
                                                         },
-                                                        None => VariableValue::LowPtr((id_name, sign * offset)),
+                                                        None => VariableValue::LowPtr((id_name, offset.checked_mul(sign).ok_or_else(|| self.syntax_error("Pointer offset out of range", start))?)),
                                                     }
                                                     }
                                                     _ => {
@@ -1555,7 +1555,7 @@ impl<'a> CompilerState<'a> {
                                                                             Rule::ptr_low => {
                                                                                 let val = self.parse_calc(x.into_inner().next().unwrap().into_inner())?;
                                                                                 if val == 255 {
-                                                                                    v.push(VariableValue::LowPtr((id_name, sign * offset)))
+                                                                                    v.push(VariableValue::LowPtr((id_name, offset.checked_mul(sign).ok_or_else(|| self.syntax_error("Pointer offset out of range", start))?)))
                                                                                 } else {
                                                                                     return Err(self.syntax_error(&format!("Incorrect suffix to reference {}", id_name), start))
                                                                                 }
@@ -1563,14 +1563,14 @@ impl<'a> CompilerState<'a> {
                                                                             Rule::ptr_hi => {
                                                                                 let val = self.parse_calc(x.into_inner().next().unwrap().into_inner())?;
                                                                                 if val == 8 {
-                                                                                    v.push(VariableValue::HiPtr((id_name, sign * offset)))
+                                                                                    v.push(VariableValue::HiPtr((id_name, offset.checked_mul(sign).ok_or_else(|| self.syntax_error("Pointer offset out of range", start))?)))
                                                                                 } else {
                                                                                     return Err(self.syntax_error(&format!("Incorrect suffix to reference {}", id_name), start))
                                                                                 }
                                                                             },
                                                                             _ => return Err(self.syntax_error(&format!("Incorrect suffix to reference {}", id_name), start))
                                                                         },
-                                                                        None => v.push(VariableValue::LowPtr((id_name, sign * offset))),
+                                                                        None => v.push(VariableValue::LowPtr((id_name, offset.checked_mul(sign).ok_or_else(|| self.syntax_error("Pointer offset out of range", start))?))),
                                                                     }
                                                                 },
                                                                 _ => return Err(self.syntax_error(&format!("Incorrect suffix to reference {}", id_name), start))
@@ -1615,7 +1615,7 @@ impl<'a> CompilerState<'a> {
                                                             Some(x) => match x.as_rule() {
                                                                 Rule::ptr_offset => {
                                                                     let sign = if x.as_str().starts_with("-") { -1 } else { 1 };
-                                                                    sign * self.parse_int(x.into_inner().next().unwrap().into_inner().next().unwrap())?
+                                                                    self.parse_int(x.into_inner().next().unwrap().into_inner().next().unwrap())?.checked_mul(sign).ok_or_else(|| self.syntax_error("Pointer offset out of range", start))?
                                                                 },
                                                                 _ => return Err(self.syntax_error(&format!("Incorrect suffix to reference {}", s), start))
                                                             },
